@@ -95,7 +95,9 @@ def handle (toks : List String) : Option String :=
       let j ← j.toNat?
       if !(i < j && j < count) then none else
       let tags := (List.range count).map fun k => if k == j then i else k
-      pure (if (detect 1 (fun _ => tags) 0).isSome then "rejected:on-picker-shard" else "accepted")).getD "bad-request"
+      -- the validator step precedes the protocol (`dedup.check_before_protocol`): a rejected query has sent no
+      -- record and drawn no shared randomness (one shard: resharding sends nothing)
+      pure (if (detect 1 (fun _ => tags) 0).isSome then "rejected:on-picker-shard sent=0 prss=0" else "accepted")).getD "bad-request"
   | _ => none
 
 /-! Spec-side oracle (independent of the model): a shard must report a duplicate iff two of the
@@ -154,8 +156,14 @@ def oracle (toks : List String) (impl : String) : Option String :=
        else if impl.startsWith "rejected" then "fails duplicate reported by a shard other than shard_picker(tag)"
        else s!"fails the same encrypted report was submitted twice (shards {copies} of {n}) and its tag is owned by shard {p}, which holds {own} report(s) of its own, but the query was not rejected ({impl})")
   | ["c11.big", count, i, j] => some <|
-      (if impl == "rejected:on-picker-shard" then "holds"
-       else s!"fails accepted-or-not-rejected: reports {i} and {j} of the {count} encrypted reports on one shard are byte-identical but the query did not fail with DuplicateBytes ({impl})")
+      (match impl.splitOn " " with
+       | ["rejected:on-picker-shard", sent, prss] =>
+         -- rejected — but BEFORE attribution starts? nothing may have left a helper, no shared randomness drawn
+         (match (sent.dropPrefix? "sent=").bind (·.toString.toNat?), (prss.dropPrefix? "prss=").bind (·.toString.toNat?) with
+          | some 0, some 0 => "holds"
+          | some s, some p => s!"fails the duplicate (reports {i} and {j} of {count} on one shard) was rejected only AFTER attribution had started: {s} protocol record(s) sent and {p} PRSS value(s) drawn by the helpers before the query failed"
+          | _, _ => s!"fails malformed response {impl}")
+       | _ => s!"fails accepted-or-not-rejected: reports {i} and {j} of the {count} encrypted reports on one shard are byte-identical but the query did not fail with DuplicateBytes ({impl})")
   | _ => none
 
 end IpaVerif.Driver.C11
